@@ -15,6 +15,7 @@ import FlacModel.Model.FileDecode
 import FlacModel.Model.Ctor
 import FlacModel.Model.FrameWf
 import FlacModel.Gen.Resid
+import FlacModel.Gen.KernelsEnc
 import Driver.Meta
 
 open Flac
